@@ -6,9 +6,12 @@ from .. import core
 from ..core import enc, dec
 from .. import attrs as A
 
-OPS_CFG = ("CONSTANT Depth = %d\nCONSTANT Mode = \"ops\"\nCONSTANT WordNA = {}\nCONSTANT NumTable <- MCNumTable\nINIT InitAll\nNEXT NextAll\nCHECK_DEADLOCK FALSE\n"
-           "CONSTRAINT Emit\nINVARIANT InvSeqs\nINVARIANT InvSwitch\nINVARIANT InvKeysOnce\n")
-MERGE_CFG = "CONSTANT Depth = 1\nCONSTANT Mode = \"merge\"\nCONSTANT WordNA = {}\nCONSTANT NumTable <- MCNumTable\nINIT InitAll\nNEXT NextAll\nCHECK_DEADLOCK FALSE\nINVARIANT InvMerge\n"
+OPS_CFG = ("CONSTANT Depth = %d\nCONSTANT Mode = \"ops\"\nCONSTANT WordNA = {}\nCONSTANT Deviations = {}\nCONSTANT NumTable <- MCNumTable\nINIT InitAll\nNEXT NextAll\nCHECK_DEADLOCK FALSE\n"
+           "CONSTRAINT Emit\nINVARIANT InvSeqs\nINVARIANT InvSwitch\nINVARIANT InvKeysOnce\nINVARIANT InvPrintIgnoresSwitch\n")
+LEAK = "Dev_SwitchLeaksIntoPrint"
+LEAK_CFG = ("CONSTANT Depth = 2\nCONSTANT Mode = \"ops\"\nCONSTANT WordNA = {}\nCONSTANT Deviations = {\"%s\"}\nCONSTANT NumTable <- MCNumTable\nINIT InitAll\nNEXT NextAll\n"
+            "CHECK_DEADLOCK FALSE\nINVARIANT InvPrintIgnoresSwitch\n" % LEAK)
+MERGE_CFG = "CONSTANT Depth = 1\nCONSTANT Mode = \"merge\"\nCONSTANT WordNA = {}\nCONSTANT Deviations = {}\nCONSTANT NumTable <- MCNumTable\nINIT InitAll\nNEXT NextAll\nCHECK_DEADLOCK FALSE\nINVARIANT InvMerge\n"
 GENM_CFG = "CONSTANT WordNA = {}\nCONSTANT NumTable <- NumFromFile\nINIT Init\nNEXT Next\nCHECK_DEADLOCK FALSE\n"
 
 
@@ -83,6 +86,16 @@ def run_ops(args):
                 f.attributes = A.from_stored_json(txt)
             if constants.always_return_list != s["sw"]:
                 fails.append((k, "harness:switch"))
+            # what str(feature) prints does not depend on the switch (a leak that matches the known finding exactly is reported as such)
+            if kind == "parsed" and op != "json":
+                try:
+                    col = enc(str(f).split("\t", 8)[8])
+                except Exception as e:  # noqa
+                    col = "raised:" + type(e).__name__
+                if col != s["printed"]:
+                    fails.append((k, "known:" + LEAK if (col == s["printedLeak"] and not s["sw"]) else "printed_depends_on_switch" if not s["sw"] else "printed"))
+                    if not fails[-1][1].startswith("known:"):
+                        break
             got = view_of(f.attributes)
             if got != s["view"]:
                 fails.append((k, "view"))
@@ -169,6 +182,11 @@ def run(ctx):
     if not mc.ok:
         ctx.violation({"tlc": "MC_AttrStore"}, "model:" + str(mc.violated), {"log": ctx.keep_log("MC_AttrStore", mc.out)})
         return
+    # the known finding, switched on, must break the invariant it is recorded against
+    lk = ctx.tlc("MC_AttrStore", LEAK_CFG, expect="inv", label="deviation %s must break InvPrintIgnoresSwitch" % LEAK)
+    ctx.extra["deviation_leak_breaks"] = lk.violated
+    if lk.violated != "InvPrintIgnoresSwitch":
+        ctx.violation({"deviation": LEAK}, "model:deviation_not_a_defect", {"violated": lk.violated})
     hs = [j["h"] for j in mc.json]
     ctx.exhaustive = True
     limit = 60000 if thorough else 6000
@@ -177,7 +195,15 @@ def run(ctx):
         ctx.exhaustive = False
     work = [(h, "parsed" if k % 4 else "fromdb") for k, h in enumerate(hs)]
     res = core.pmap(run_ops, work)
-    for (h, kind), fails in zip(work, res):
+    known = core.known_names("C17")
+    for (h, kind), fails0 in zip(work, res):
+        leaks = [f for f in fails0 if f[1] == "known:" + LEAK]
+        fails = [f for f in fails0 if f[1] != "known:" + LEAK]
+        if leaks:
+            if LEAK in known:
+                ctx.known_finding(LEAK, "with constants.always_return_list = False, str(feature) joins the characters of a single attribute value with commas ('gab' prints as 'g,a,b'): the switch changes more than the view")
+            else:
+                fails = [(leaks[0][0], "printed_depends_on_switch")] + fails
         for k, clause in fails[:1]:
             ctx.violation({"ops": [{kk: (vv if kk in ("op", "via", "sw") else None) for kk, vv in s.items() if kk in ("op", "via", "sw")} for s in h], "raw": h, "feature": kind},
                           "step%d:%s" % (k, clause), None)
@@ -309,7 +335,11 @@ def replay(ctx, rec):
         same = c["line1"] == c["line2"]
         return (f == g) != same or (f != g) == same or (same and hash(f) != hash(g))
     if "raw" in c and isinstance(c["raw"], list):
-        return bool(run_ops((c["raw"], c.get("feature", "parsed"))))
+        fails = run_ops((c["raw"], c.get("feature", "parsed")))
+        real = [f for f in fails if f[1] != "known:" + LEAK or LEAK not in core.known_names("C17")]
+        if fails and not real:
+            print("KNOWN-FINDING: property=C17 %s" % LEAK)
+        return bool(real)
     if "raw" in c and "a1" in c["raw"]:
         num, _ = random_pairs(ctx.rng, 0)
         p = ctx.path("pairs.json")
